@@ -5,8 +5,17 @@
 //! op names the exchange label `e` whose execution link (the real
 //! `generate_execution_instrument_map(&instruments, EXCHANGES[e])`) it is executed on.
 //! Exchange ids are labels (= position in `vh::engine_util::EXCHANGES`), every name is a numeric
-//! string.
-use barter::execution::{AccountStreamEvent, manager::ExecutionManager, request::ExecutionRequest};
+//! string. The `route` op has no link argument: it builds the real `ExecutionBuilder` over the
+//! collection with `add_live::<RStub<e>>` for a list of labels, initialises it and sends one
+//! request through `execution_txs.find(&ExchangeIndex(x))` (see `through_builder`).
+use barter::{
+    engine::execution_tx::ExecutionTxMap,
+    error::BarterError,
+    execution::{
+        AccountStreamEvent, Execution, builder::ExecutionBuilder, manager::ExecutionManager,
+        request::ExecutionRequest,
+    },
+};
 use barter_execution::{
     AccountEvent, AccountEventKind, AccountSnapshot, InstrumentAccountSnapshot,
     UnindexedAccountEvent, UnindexedAccountSnapshot,
@@ -435,6 +444,42 @@ fn s_client_cancel(r: &OrderRequestCancel<ExchangeId, &InstrumentNameExchange>) 
 
 // ------------------------------------------------------------------------------------ stub client
 
+/// the answer of a stub client: the key it was handed, cancelled
+fn echo_cancel(
+    request: OrderRequestCancel<ExchangeId, &InstrumentNameExchange>,
+) -> UnindexedOrderResponseCancel {
+    let id = request.state.id.clone().unwrap_or(OrderId::new("0"));
+    OrderResponseCancel {
+        key: OrderKey {
+            exchange: request.key.exchange,
+            instrument: request.key.instrument.clone(),
+            strategy: request.key.strategy,
+            cid: request.key.cid,
+        },
+        state: Ok(Cancelled::new(id, t0())),
+    }
+}
+
+/// the answer of a stub client: the key it was handed, open
+fn echo_open(
+    request: OrderRequestOpen<ExchangeId, &InstrumentNameExchange>,
+) -> Order<ExchangeId, InstrumentNameExchange, Result<Open, UnindexedOrderError>> {
+    Order {
+        key: OrderKey {
+            exchange: request.key.exchange,
+            instrument: request.key.instrument.clone(),
+            strategy: request.key.strategy,
+            cid: request.key.cid,
+        },
+        side: request.state.side,
+        price: request.state.price,
+        quantity: request.state.quantity,
+        kind: request.state.kind,
+        time_in_force: request.state.time_in_force,
+        state: Ok(Open::new(OrderId::new("1"), t0(), Decimal::ZERO)),
+    }
+}
+
 /// `ExecutionClient` that records the request it is handed and answers with the same key.
 #[derive(Debug, Clone)]
 struct Stub {
@@ -471,16 +516,7 @@ impl ExecutionClient for Stub {
         request: OrderRequestCancel<ExchangeId, &InstrumentNameExchange>,
     ) -> impl Future<Output = UnindexedOrderResponseCancel> + Send {
         self.log.lock().unwrap().push(s_client_cancel(&request));
-        let id = request.state.id.clone().unwrap_or(OrderId::new("0"));
-        std::future::ready(OrderResponseCancel {
-            key: OrderKey {
-                exchange: request.key.exchange,
-                instrument: request.key.instrument.clone(),
-                strategy: request.key.strategy,
-                cid: request.key.cid,
-            },
-            state: Ok(Cancelled::new(id, t0())),
-        })
+        std::future::ready(echo_cancel(request))
     }
 
     fn open_order(
@@ -490,20 +526,7 @@ impl ExecutionClient for Stub {
         Output = Order<ExchangeId, InstrumentNameExchange, Result<Open, UnindexedOrderError>>,
     > + Send {
         self.log.lock().unwrap().push(s_client_open(&request));
-        std::future::ready(Order {
-            key: OrderKey {
-                exchange: request.key.exchange,
-                instrument: request.key.instrument.clone(),
-                strategy: request.key.strategy,
-                cid: request.key.cid,
-            },
-            side: request.state.side,
-            price: request.state.price,
-            quantity: request.state.quantity,
-            kind: request.state.kind,
-            time_in_force: request.state.time_in_force,
-            state: Ok(Open::new(OrderId::new("1"), t0(), Decimal::ZERO)),
-        })
+        std::future::ready(echo_open(request))
     }
 
     async fn fetch_balances(
@@ -575,6 +598,242 @@ fn through_manager(
     });
     let log = log.lock().unwrap().clone();
     (log, resp, panicked)
+}
+
+// ------------------------------------------------------------------------------------ route
+
+/// The live client of exchange label `N` for the `route` op: `EXCHANGE` is that exchange (so
+/// `add_live` links it to exactly that exchange), every request it is handed is recorded as
+/// `"<N> <request>"` in the log shared by all clients of one builder, and answered with the key
+/// it carried. Its account stream stays silent after an empty snapshot.
+#[derive(Debug, Clone)]
+struct RStub<const N: usize> {
+    log: Arc<Mutex<Vec<String>>>,
+}
+
+impl<const N: usize> ExecutionClient for RStub<N> {
+    const EXCHANGE: ExchangeId = EXCHANGES[N];
+    type Config = Arc<Mutex<Vec<String>>>;
+    type AccountStream = futures::stream::Pending<UnindexedAccountEvent>;
+
+    fn new(config: Self::Config) -> Self {
+        RStub { log: config }
+    }
+
+    async fn account_snapshot(
+        &self,
+        _: &[AssetNameExchange],
+        _: &[InstrumentNameExchange],
+    ) -> Result<UnindexedAccountSnapshot, UnindexedClientError> {
+        Ok(AccountSnapshot {
+            exchange: Self::EXCHANGE,
+            balances: vec![],
+            instruments: vec![],
+        })
+    }
+
+    async fn account_stream(
+        &self,
+        _: &[AssetNameExchange],
+        _: &[InstrumentNameExchange],
+    ) -> Result<Self::AccountStream, UnindexedClientError> {
+        Ok(futures::stream::pending())
+    }
+
+    fn cancel_order(
+        &self,
+        request: OrderRequestCancel<ExchangeId, &InstrumentNameExchange>,
+    ) -> impl Future<Output = UnindexedOrderResponseCancel> + Send {
+        self.log.lock().unwrap().push(format!("{N} {}", s_client_cancel(&request)));
+        std::future::ready(echo_cancel(request))
+    }
+
+    fn open_order(
+        &self,
+        request: OrderRequestOpen<ExchangeId, &InstrumentNameExchange>,
+    ) -> impl Future<
+        Output = Order<ExchangeId, InstrumentNameExchange, Result<Open, UnindexedOrderError>>,
+    > + Send {
+        self.log.lock().unwrap().push(format!("{N} {}", s_client_open(&request)));
+        std::future::ready(echo_open(request))
+    }
+
+    async fn fetch_balances(
+        &self,
+    ) -> Result<Vec<AssetBalance<AssetNameExchange>>, UnindexedClientError> {
+        unimplemented!()
+    }
+
+    async fn fetch_open_orders(
+        &self,
+    ) -> Result<Vec<Order<ExchangeId, InstrumentNameExchange, Open>>, UnindexedClientError> {
+        unimplemented!()
+    }
+
+    async fn fetch_trades(
+        &self,
+        _: DateTime<Utc>,
+    ) -> Result<Vec<Trade<QuoteAsset, InstrumentNameExchange>>, UnindexedClientError> {
+        unimplemented!()
+    }
+}
+
+/// One request end to end: the real `ExecutionBuilder` over `ii` with `add_live::<RStub<e>>` for
+/// every label of `adds` (in this order), `build()`, `init()` on a paused current-thread runtime
+/// (every `ExecutionManager::run` and account-stream forwarder is a task of it), then
+/// `execution_txs.find(&ExchangeIndex(x))` and `send`, exactly as `Engine::send_request` does.
+/// Observed: the slots of the transmitter table, whether the lookup succeeded, every call any
+/// client received (tagged with the receiving client), which managers panicked, and the key of
+/// every order response that came back on the merged account channel.
+fn through_builder(
+    ii: &IndexedInstruments,
+    adds: &[usize],
+    x: usize,
+    request: ExecutionRequest,
+    lines: &mut Vec<String>,
+) {
+    let log = Arc::new(Mutex::new(Vec::new()));
+    let timeout = std::time::Duration::from_secs(1);
+    let mut builder = ExecutionBuilder::new(ii);
+    for e in adds {
+        let res = match e {
+            0 => builder.add_live::<RStub<0>>(log.clone(), timeout),
+            1 => builder.add_live::<RStub<1>>(log.clone(), timeout),
+            2 => builder.add_live::<RStub<2>>(log.clone(), timeout),
+            3 => builder.add_live::<RStub<3>>(log.clone(), timeout),
+            4 => builder.add_live::<RStub<4>>(log.clone(), timeout),
+            _ => panic!("bad op: exchange label out of range"),
+        };
+        match res {
+            Ok(next) => builder = next,
+            Err(BarterError::IndexError(_)) => {
+                lines.push("r builderr index".into());
+                return;
+            }
+            Err(BarterError::ExecutionBuilder(_)) => {
+                lines.push("r builderr duplicate".into());
+                return;
+            }
+            Err(other) => panic!("unexpected builder error {other:?}"),
+        }
+    }
+    let build = match std::panic::catch_unwind(std::panic::AssertUnwindSafe(|| builder.build())) {
+        Ok(build) => build,
+        Err(_) => {
+            lines.push("r buildpanic".into());
+            return;
+        }
+    };
+    let rt = tokio::runtime::Builder::new_current_thread()
+        .enable_time()
+        .start_paused(true)
+        .build()
+        .unwrap();
+    let (txmap, found, panicked, responses) = rt.block_on(async {
+        let Execution {
+            execution_txs,
+            mut account_channel,
+            handles,
+        } = build
+            .init()
+            .await
+            .unwrap_or_else(|e| panic!("ExecutionBuild::init failed: {e:?}"));
+        let mut txmap = vec!["txmap".to_string()];
+        txmap.extend(
+            (&execution_txs)
+                .into_iter()
+                .map(|(id, tx)| format!("{}:{}", label(*id), tx.is_some() as u8)),
+        );
+        let found = match execution_txs.find(&ExchangeIndex(x)) {
+            Ok(tx) => {
+                tx.send(request).expect("manager dropped its receiver before the request");
+                true
+            }
+            Err(_) => false,
+        };
+        // paused clock: returns once every task is idle (request handled, answer forwarded)
+        tokio::time::sleep(std::time::Duration::from_secs(3)).await;
+        let mut panicked = vec![];
+        for (j, h) in handles.managers.into_iter().enumerate() {
+            if h.is_finished() {
+                match h.await {
+                    Err(e) if e.is_panic() => panicked.push(adds[j]),
+                    _ => panicked.push(100 + adds[j]), // a manager must not stop by itself
+                }
+            } else {
+                h.abort();
+            }
+        }
+        handles.account_to_engines.iter().for_each(|h| h.abort());
+        handles.mock_exchanges.iter().for_each(|h| h.abort());
+        let mut responses = vec![];
+        while let Ok(ev) = account_channel.rx.rx.try_recv() {
+            match ev {
+                AccountStreamEvent::Item(AccountEvent { exchange, kind }) => {
+                    let key = match &kind {
+                        // the initial snapshot of every link's account stream
+                        AccountEventKind::Snapshot(_) => continue,
+                        AccountEventKind::OrderSnapshot(o) => o.0.key.clone(),
+                        AccountEventKind::OrderCancelled(r) => r.key.clone(),
+                        other => panic!("unexpected response {other:?}"),
+                    };
+                    responses.push(if key.exchange != exchange {
+                        format!("{} !event-exchange={}", s_key(&key), exchange.0)
+                    } else {
+                        s_key(&key)
+                    });
+                }
+                AccountStreamEvent::Reconnecting(_) => responses.push("reconnecting".into()),
+            }
+        }
+        (txmap.join(" "), found, panicked, responses)
+    });
+    let log = log.lock().unwrap().clone();
+    lines.push(txmap);
+    lines.push(
+        if !found {
+            "r err"
+        } else if !panicked.is_empty() {
+            "r panic"
+        } else {
+            "r ok"
+        }
+        .into(),
+    );
+    lines.push(format!("delivered {}", log.len()));
+    for l in &log {
+        lines.push(format!("client {l}"));
+    }
+    for who in &panicked {
+        lines.push(format!("mpanic {who}"));
+    }
+    if found && panicked.is_empty() {
+        if responses.is_empty() {
+            lines.push("resp filtered".into());
+        }
+        for r in &responses {
+            lines.push(format!("resp {r}"));
+        }
+    } else {
+        for r in &responses {
+            lines.push(format!("resp! {r}"));
+        }
+    }
+}
+
+/// `route <n> <e>*n (open|cancel) <x> <i> <cid> <p>`
+fn route_op(ii: &IndexedInstruments, op: &[String], lines: &mut Vec<String>) {
+    let mut c = Cur { t: &op[1..], i: 0 };
+    let n = c.count();
+    let adds: Vec<usize> = (0..n).map(|_| c.count()).collect();
+    let (kind, x, i, cid, p) = (c.next(), c.count(), c.count(), c.num(), c.num());
+    c.done();
+    let request = match kind {
+        "open" => ExecutionRequest::Open(request_open(x, i, cid, p)),
+        "cancel" => ExecutionRequest::Cancel(request_cancel(x, i, cid, p)),
+        o => panic!("bad kind {o}"),
+    };
+    through_builder(ii, &adds, x, request, lines);
 }
 
 // ------------------------------------------------------------------------------------ run
@@ -847,6 +1106,7 @@ fn run() {
                     lines.extend(table_lines(&ii));
                     built = Some(ii);
                 }
+                "route" => route_op(built.as_ref().expect("build first"), op, lines),
                 _ => query(built.as_ref().expect("build first"), op, lines),
             }
         }
@@ -1124,6 +1384,83 @@ fn random_ops(out: &mut Out, rng: &mut Rng, ii: &IndexedInstruments, n_ops: usiz
     }
 }
 
+/// labels of the collection's exchanges in `ExchangeIndex` order
+fn present_labels(ii: &IndexedInstruments) -> Vec<usize> {
+    ii.exchanges().iter().map(|k| label(k.value)).collect()
+}
+
+/// The exchanges an execution is added for, in `add_*` call order. `skip_first`: the exchange with
+/// `ExchangeIndex(0)` stays link-less (market data only) while at least one later exchange is
+/// linked — the configuration in which a table without placeholder slots shifts every later
+/// transmitter down. Otherwise every exchange is linked with probability 60%. The call order is
+/// shuffled; 8% of the lists are then spoiled by a repeated or an absent exchange (the builder
+/// must refuse them).
+fn g_adds(rng: &mut Rng, present: &[usize], skip_first: bool) -> Vec<usize> {
+    let mut adds: Vec<usize> = vec![];
+    if skip_first && present.len() >= 2 {
+        for &e in &present[1..] {
+            if rng.chance(75) {
+                adds.push(e);
+            }
+        }
+        if adds.is_empty() {
+            adds.push(present[1 + rng.below(present.len() as u64 - 1) as usize]);
+        }
+    } else {
+        for &e in present {
+            if rng.chance(60) {
+                adds.push(e);
+            }
+        }
+    }
+    for k in 0..adds.len() {
+        let j = k + rng.below((adds.len() - k) as u64) as usize;
+        adds.swap(k, j);
+    }
+    if rng.chance(8) {
+        let absent: Vec<usize> = (0..EXCHANGES.len()).filter(|e| !present.contains(e)).collect();
+        if !adds.is_empty() && (absent.is_empty() || rng.chance(50)) {
+            let d = *rng.pick(&adds);
+            adds.push(d);
+        } else if !absent.is_empty() {
+            let pos = rng.below(adds.len() as u64 + 1) as usize;
+            adds.insert(pos, *rng.pick(&absent));
+        }
+    }
+    adds
+}
+
+fn adds_tok(adds: &[usize]) -> String {
+    let mut t = vec![adds.len().to_string()];
+    t.extend(adds.iter().map(|e| e.to_string()));
+    t.join(" ")
+}
+
+/// `route` ops: `n_sets` link selections (every other one with the first exchange link-less), and
+/// for each of them one request per exchange index 0..=len (own, link-less, out of range), 70% for
+/// an instrument of the exchange at that index, else any instrument index 0..=len.
+fn route_ops(out: &mut Out, rng: &mut Rng, ii: &IndexedInstruments, n_sets: usize) {
+    let present = present_labels(ii);
+    for s in 0..n_sets {
+        let adds = adds_tok(&g_adds(rng, &present, s % 2 == 0));
+        for x in 0..=present.len() {
+            let own: Vec<usize> = ii
+                .instruments()
+                .iter()
+                .filter(|k| k.value.exchange.key.0 == x)
+                .map(|k| k.key.0)
+                .collect();
+            let i = if !own.is_empty() && rng.chance(70) {
+                *rng.pick(&own)
+            } else {
+                rng.below(ii.instruments().len() as u64 + 1) as usize
+            };
+            let kind = *rng.pick(&["open", "cancel"]);
+            out.line(format!("route {adds} {kind} {x} {i} {} {}", rng.below(50), rng.below(1000)));
+        }
+    }
+}
+
 /// A random collection: 1..=4 exchange labels out of 5 (so label order != index order), 0..=5
 /// instruments each (unequal counts), asset internal names from a pool of 4 shared by all
 /// exchanges, exchange names from small numeric pools so that they collide *across* exchanges all
@@ -1248,6 +1585,38 @@ fn generate(seed: u64, n_cases: usize, tier: &str) {
                                 }
                             }
                         }
+                        // end-to-end routing: first exchange link-less and the later ones added
+                        // in reverse order (every exchange index x every instrument index); all
+                        // linked in reverse order, and the middle one link-less (every exchange
+                        // index x {first instrument of that exchange or 0, out of range})
+                        let present = present_labels(ii);
+                        let n = present.len();
+                        if n >= 1 {
+                            let rev = |v: &[usize]| v.iter().rev().copied().collect::<Vec<_>>();
+                            let skip_first = adds_tok(&rev(&present[1..]));
+                            for x in 0..=n {
+                                for i in 0..=ii.instruments().len() {
+                                    out.line(format!("route {skip_first} open {x} {i} 7 5"));
+                                }
+                            }
+                            let mut sets = vec![adds_tok(&rev(&present))];
+                            if n >= 3 {
+                                sets.push(adds_tok(&[present[n - 1], present[0]]));
+                            }
+                            for adds in &sets {
+                                for x in 0..=n {
+                                    let own = ii
+                                        .instruments()
+                                        .iter()
+                                        .find(|k| k.value.exchange.key.0 == x)
+                                        .map(|k| k.key.0)
+                                        .unwrap_or(0);
+                                    for i in [own, ii.instruments().len()] {
+                                        out.line(format!("route {adds} cancel {x} {i} 7 5"));
+                                    }
+                                }
+                            }
+                        }
                     });
                 }
             }
@@ -1261,6 +1630,7 @@ fn generate(seed: u64, n_cases: usize, tier: &str) {
         emit_case(&mut out, format!("r{id}"), &defs, |out, ii| {
             sweep(out, ii, &[0, 1, 2, 3, 4]);
             random_ops(out, &mut r2, ii, n_ops);
+            route_ops(out, &mut r2, ii, if tier == "thorough" { 4 } else { 3 });
             // 8%: afterwards break key = position (duplicate / shifted / out-of-range keys) and
             // sweep again; outside `Indexed`, so model vs code only
             if r2.chance(8) {
